@@ -400,12 +400,12 @@ def rnd_params(name, dtype_idx):
     return out
 
 
-def gen_rnd_case(rng, fn, mode=None, nested=None, nonzero_key=False):
+def gen_rnd_case(rng, fn, mode=None, nested=None, nonzero_key=False, other_shapes=False):
     names = rnd_names()
     name = names[fn]
     nested = (rng.random() < 0.4) if nested is None else nested
     shs = [[8], [8]] if nested else [[8]]
-    if rng.random() < 0.15:
+    if other_shapes and rng.random() < 0.3:
         shs = [list(rng.choice([(2,), (3, 2), (4,)])) for _ in shs]
     jname = "normal" if name == "randn" else name
     d = rng.randrange(3 if jname == "normal" else 2) if jname in ("normal", "uniform") else 0
@@ -1676,7 +1676,8 @@ def check_interleaved(ctx, rng):
     k = ctx.n(2, 3)
     for name in sorted(cat):
         for variant in ((rng.randrange(2),) if ctx.quick else (0, 1)):
-            r = outcome(lambda: run_interleaved_config(ctx, name, cat[name], variant, k))
+            kk = 1 if (ctx.quick and name in ("ADMM/Generic", "ADMM/default")) else k     # BFGS x-steps are slow
+            r = outcome(lambda: run_interleaved_config(ctx, name, cat[name], variant, kk))
             if r[0] == "exc":
                 ctx.obligation(False, f"interleaved-objects scenario {name} could not be executed", r[1])
     # SharedDefault.v against PGM with default step-size policies: histories of constructions / steps
@@ -2051,7 +2052,9 @@ def check_random_python(ctx, rng):
     from scico.numpy import BlockArray
     for name in rnd_names():
         params = rnd_params(name, 1)
-        for shape in ((8,), ((8,), (8,))):
+        # quick tier: the nested draw for a seed-dependent third of the samplers (stream C draws every
+        # sampler nested as well)
+        for shape in (((8,), ((8,), (8,))) if (not ctx.quick or rng.random() < 0.34) else ((8,),)):
             k = jax.random.PRNGKey(rng.randint(1, 1000))
             r = outcome(lambda: (rnd_call(name, params, shape, 2, k, None), rnd_call(name, params, shape, 0, k, None)))
             ctx.count("random-python", {"fn": name, "shape": shape})
@@ -2164,7 +2167,7 @@ def run(ctx: Ctx):
     # draw, and seed-dependent further calls
     rcases = [gen_rnd_case(rng, fn, mode=2, nested=False, nonzero_key=True) for fn in range(nfn)]
     rcases += [gen_rnd_case(rng, fn, nested=True) for fn in range(nfn)]
-    rcases += [gen_rnd_case(rng, rng.randrange(nfn)) for _ in range(ctx.n(30, 500))]
+    rcases += [gen_rnd_case(rng, rng.randrange(nfn), other_shapes=not ctx.quick) for _ in range(ctx.n(12, 500))]
     ritems, rmeta = [], []
     for c in rcases:
         obs = run_rnd_impl(c, tabs)
@@ -2225,8 +2228,8 @@ def run(ctx: Ctx):
     check_jit_option(ctx, rng, cat)      # every class, both tiers
     mark("E0-jit-option")
     names = sorted(cat)
-    if ctx.quick:      # quick tier: the further modes on a seed-dependent 45 % of the operator classes (all in thorough)
-        names = sorted(rng.sample(names, (len(names) * 45) // 100))
+    if ctx.quick:      # quick tier: the further modes on a seed-dependent 30 % of the operator classes (all in thorough)
+        names = sorted(rng.sample(names, (len(names) * 30) // 100))
         ctx.notes.append("quick tier: operator classes checked in this run: " + ", ".join(names))
     for name in names:
         dts = cat[name][1]
